@@ -234,6 +234,16 @@ func genTransport() (string, error) {
 	keeps := nConn == 1 && nState == 2 && bare && named
 	fmt.Fprintf(&b, "/-- the session runs on the same EncryptedConn object — same AEAD states, nonce counters NOT restarted — as the encrypted part of the handshake -/\ndef sessionKeepsHandshakeState : Bool := %v\n/-- encrypted handshake messages per direction before the session starts (signature swap, meta swap) -/\ndef handshakeFrames : Nat := %d\n", keeps, strings.Count(g.StmtsText(nh.Body.List), "Swap(encryptedConn,")-1)
 	fmt.Fprintf(&b, "/-- NewHandshake refuses a peer signature whose public key equals our own (reflection guard) -/\ndef rejectsOwnKey : Bool := %v\ndef src_ownKeyCheck : String := %q\n", own, ownSrc)
+	// the signature cache every VerifyBytes (hence the handshake's challenge check) consults: its key and lookup
+	kb, err := g.ParseFile(filepath.Join(*repo, "lib/crypto/key_batch.go"))
+	if err != nil {
+		return "", err
+	}
+	kf, cc := kb.FindFunc("BatchTuple", "Key"), kb.FindFunc("", "CheckCache")
+	if kf == nil || cc == nil {
+		return "", fmt.Errorf("lib/crypto/key_batch.go: BatchTuple.Key / CheckCache not found")
+	}
+	fmt.Fprintf(&b, "def src_sigCacheKey : String := %q\ndef src_checkCache : String := %q\n", g.StmtsText(kf.Body.List), g.StmtsText(cc.Body.List))
 	b.WriteString("end Canopy.Gen.Transport\n")
 	return b.String(), nil
 }
